@@ -41,6 +41,9 @@ theorem dtc_format_graph :
 /-- the DTC format constants carry the ISO values (the code may define more) -/
 theorem dtc_format_iso : isoDtcFormat.all (fun c => Generated.dtcFormatConsts.contains c) = true := by decide +kernel
 
+/-- the functional group identifiers a caller names carry the ISO values (the code may define more) -/
+theorem functional_group_iso : isoFunctionalGroup.all (fun c => Generated.functionalGroupConsts.contains c) = true := by decide +kernel
+
 /-- `ResponseCode.get_name` over 0..255 (the Model table is tied in `Tie.Tables`) -/
 theorem rc_graph : Generated.rcNameGraph = (List.range 256).map Model.rcName := by decide +kernel
 
